@@ -55,6 +55,7 @@ void genBasic(Prng& r, Plan& p, int)
 {
 	int n = 1 + (int)r.below(3);
 	p.p["join_reverse"] = r.below(2);
+	p.p["second_wave"] = r.below(4) == 0 ? 1 + r.below(3) : 0;
 	for (int i = 0; i < n; i++)
 	{
 		int kind = (int)r.below(2); // 0 subclass, 1 lambda
@@ -122,6 +123,41 @@ void runBasic(const Plan& p)
 				sim::fail("finished_false_after_join", kn, "%s thread %zu: finished() is false after join()", kn, j);
 		}
 		sim::event("joined %zu runs=%d", j, cells[j].runs);
+	}
+	// second wave: new threads are started while the joined Thread objects of the first wave are still alive, and those
+	// objects are destroyed while the new threads run (a joined object must not own anything any more: the OS reuses thread
+	// identifiers, and a stale one would now name a thread of the second wave)
+	if (p.get("second_wave"))
+	{
+		size_t m = 1 + (size_t)(std::abs(p.get("second_wave")) % 3);
+		std::vector<Cell> cells2(m);
+		std::vector<asl::Thread*> thr2(m, nullptr);
+		for (size_t q = 0; q < m; q++)
+		{
+			Cell* c = &cells2[q];
+			thr2[q] = new asl::Thread([c]() {
+				c->runs = c->runs + 1;
+				asl::sleep(0.05);
+				c->value = 0x5a5a;
+				c->done = 1;
+			});
+		}
+		for (size_t j = 0; j < n; j++)
+		{
+			delete thr[j];
+			thr[j] = nullptr;
+		}
+		for (size_t q = 0; q < m; q++)
+		{
+			thr2[q]->join();
+			sim::NoSched ns;
+			if (cells2[q].runs != 1 || !cells2[q].done || cells2[q].value != 0x5a5a)
+				sim::fail("join_visibility", "lambda;second_wave", "thread %zu of a second wave (started after %zu earlier threads had been joined, whose objects were destroyed meanwhile): join() returned before its run function completed (runs=%d done=%d)", q, n,
+				          cells2[q].runs, cells2[q].done);
+		}
+		for (size_t q = 0; q < m; q++)
+			delete thr2[q];
+		return;
 	}
 	for (size_t j = 0; j < n; j++)
 	{
